@@ -167,4 +167,75 @@ Section OvSib.
         rewrite (at_chain_nil _ _ _ _ _ _ _ Hat), Hdep, Direct, Hr. reflexivity.
     - exists (S f). rewrite sibling_loop_S, Hcurrent, J. cbn [bind]. rewrite Direct, Hr. reflexivity.
   Qed.
+
+  Definition roots_ov (off : N) (d : Z) (f : list tree) : list die :=
+    on_list (fun o t => [root_die_ov codes ov o d t]) (tree_size codes) off f.
+
+  Definition list_end_ov (d : Z) (m : list xev) : Prop :=
+    (m = [] /\ rest = []) \/ (exists o l', m = null_ev o d :: l').
+
+  Lemma siblings_iter_ov d m : list_end_ov d m ->
+    forall ts t off c1 fuel,
+    c_cur c1 = root_die_ov codes ov off d t ->
+    at_chain dbg e tbl E rest (c_raw c1)
+             (tail_ov codes ov (be e) d off t ++ evs_list_ov codes ov (be e) d (off + tree_size codes t) ts ++ m) ->
+    r_depth (c_raw c1) = post_depth d t ->
+    E = kids_off codes off t +
+        nlen (xbytes (tail_ov codes ov (be e) d off t ++ evs_list_ov codes ov (be e) d (off + tree_size codes t) ts ++ m) ++ rest) ->
+    Forall pk (on_list (placed codes) (tree_size codes) off (t :: ts)) ->
+    (length ts < fuel)%nat ->
+    siblings_all fuel dbg e tbl c1 = Ok (roots_ov (off + tree_size codes t) d ts, None).
+  Proof.
+    intros Hend. induction ts as [|t' ts IH]; intros t off c1 fuel Hcur Hat Hdep HE Hp Hf;
+      (destruct fuel as [|fuel]; [lia|]); cbn [siblings_all];
+      rewrite on_list_cons in Hp; apply Forall_app in Hp; destruct Hp as [Hpt Hpts].
+    - assert (Hn : node_ok codes e t).
+      { rewrite placed_unfold in Hpt. inversion Hpt as [|? ? ((_ & Hn & _) & _) _]. exact Hn. }
+      unfold next_sibling. unfold current. rewrite Hcur, (root_die_ov_not_null codes ov e off d t Hn).
+      cbn [root_die_ov d_depth]. fold (root_die_ov codes ov off d t).
+      unfold evs_list_ov in Hat, HE. cbn [on_list app] in Hat, HE.
+      pose proof (at_chain_drop _ _ _ _ _ _ _ _ Hat) as Hat2. rewrite Hdep, tail_ov_end_depth in Hat2.
+      assert (Hans : ans (sib_half 0 dbg e tbl d (mkCur (mkRaw (xbytes m ++ rest) E d) null_die)) = ANone).
+      { unfold sib_half. destruct Hend as [[-> ->]|(o & l' & ->)].
+        - rewrite next_entry_end by reflexivity. reflexivity.
+        - rewrite (next_entry_chain dbg e tbl E rest (mkCur _ null_die) _ _ Hat2).
+          cbn [bind c_cur null_ev x_die null_at d_depth]. rewrite Z.eqb_refl. reflexivity. }
+      destruct (skip_tree_ov d t d off m c1 ltac:(lia) Hcur Hat Hdep HE Hpt 0%nat _ null_die eq_refl)
+        as (f' & Hf'); [rewrite Hans; discriminate|].
+      rewrite Hans in Hf'. apply sibling_loop_ans in Hf'; [|discriminate].
+      destruct (sibling_loop (cursor_fuel c1) dbg e tbl d c1) as [[[dd|] cc|x cc]| | |]; cbn [ans] in Hf'; try discriminate.
+      reflexivity.
+    - assert (Hn : node_ok codes e t).
+      { rewrite placed_unfold in Hpt. inversion Hpt as [|? ? ((_ & Hn & _) & _) _]. exact Hn. }
+      assert (Hn' : node_ok codes e t').
+      { rewrite on_list_cons in Hpts. apply Forall_app in Hpts. destruct Hpts as [Hpt' _].
+        rewrite placed_unfold in Hpt'. inversion Hpt' as [|? ? ((_ & Hn' & _) & _) _]. exact Hn'. }
+      unfold next_sibling. unfold current. rewrite Hcur, (root_die_ov_not_null codes ov e off d t Hn).
+      cbn [root_die_ov d_depth]. fold (root_die_ov codes ov off d t).
+      set (o' := off + tree_size codes t) in *.
+      unfold evs_list_ov in Hat, HE. rewrite on_list_cons in Hat, HE.
+      fold (evs_list_ov codes ov (be e) d (o' + tree_size codes t') ts) in Hat, HE.
+      rewrite evs_ov_tail in Hat, HE. rewrite <- !app_assoc in Hat, HE. cbn [app] in Hat, HE.
+      set (l3 := tail_ov codes ov (be e) d o' t' ++ evs_list_ov codes ov (be e) d (o' + tree_size codes t') ts ++ m) in *.
+      pose proof (at_chain_drop _ _ _ _ _ _ _ _ Hat) as Hat2. rewrite Hdep, tail_ov_end_depth in Hat2.
+      destruct (at_chain_step _ _ _ _ _ _ _ _ Hat2) as (_ & Hat3 & _). cbn [head_ev_ov x_post] in Hat3.
+      set (c2 := mkCur (mkRaw (xbytes l3 ++ rest) E (post_depth d t')) (root_die_ov codes ov o' d t')).
+      assert (Hans : ans (sib_half 0 dbg e tbl d (mkCur (mkRaw (xbytes (head_ev_ov codes ov (be e) d o' t' :: l3) ++ rest) E d) null_die))
+                     = ASome (root_die_ov codes ov o' d t') c2).
+      { unfold sib_half. rewrite (next_entry_chain dbg e tbl E rest (mkCur _ null_die) _ _ Hat2).
+        cbn [bind c_cur head_ev_ov x_die x_post root_die_ov d_depth]. rewrite Z.eqb_refl.
+        fold (root_die_ov codes ov o' d t'). fold c2. unfold current. cbn [c_cur c2].
+        rewrite (root_die_ov_not_null codes ov e o' d t' Hn'). reflexivity. }
+      destruct (skip_tree_ov d t d off _ c1 ltac:(lia) Hcur Hat Hdep HE Hpt 0%nat _ null_die eq_refl)
+        as (f' & Hf'); [rewrite Hans; discriminate|].
+      rewrite Hans in Hf'. apply sibling_loop_ans in Hf'; [|discriminate].
+      destruct (sibling_loop (cursor_fuel c1) dbg e tbl d c1) as [[[dd|] cc|x cc]| | |]; cbn [ans] in Hf'; try discriminate.
+      inversion Hf'; subst dd cc. cbn [bind].
+      assert (HE3 : E = kids_off codes o' t' + nlen (xbytes l3 ++ rest)).
+      { pose proof (tail_ov_bytes_len d off t) as Ht.
+        rewrite xbytes_app, <- app_assoc, nlen_app, xbytes_cons in HE. cbn [head_ev_ov x_bytes] in HE.
+        rewrite <- app_assoc, nlen_app, head_bytes_ov_len in HE. pose proof (kids_off_ge codes o' t'). unfold o' in *. lia. }
+      rewrite (IH t' o' c2 fuel eq_refl Hat3 eq_refl HE3 Hpts ltac:(cbn in Hf; lia)).
+      unfold roots_ov. rewrite on_list_cons. reflexivity.
+  Qed.
 End OvSib.
